@@ -7,7 +7,8 @@ props = [json.loads(l) for l in open(os.path.join(ROOT, "properties.jsonl"))]
 specs = {}
 for f in sorted(glob.glob(os.path.join(ROOT, "props", "C*.json"))):
     s = json.load(open(f))
-    if s.get("claimed", True):
+    complete = all(k in s for k in ("level_text", "level_note", "technique", "theorems", "group")) and s["theorems"]
+    if s.get("claimed", True) and complete and os.path.exists(os.path.join(ROOT, "evidence", s["id"] + ".json")):
         specs[s["id"]] = s
 na_reasons = json.load(open(os.path.join(ROOT, "tools", "not_applicable.json")))
 hooks = [l.split()[0] for l in subprocess.run(
